@@ -146,3 +146,37 @@ Fixpoint h2_meta_seq2 (close_first : bool) (dec : bool * bool) (max_list : N)
       let '(res, d') := h2_meta_run2 close_first dec max_list sid su torn frags in
       res :: match d' with Some d => h2_meta_seq2 close_first d max_list r | None => [] end
   end.
+
+(* ---------- Framer.ErrorDetail over a sequence of ReadFrame calls ---------- *)
+(* Framer.errDetail is one more thing the Framer carries from call to call: the detail of the last
+   error (set by readMetaFrame for a malformed field / pseudo-header misuse).  ReadFrame clears it
+   FIRST, so what ErrorDetail() says after a call is about that call.  Events: a header block
+   (HEADERS + CONTINUATION, as above) or a frame the frame parser itself refuses with a stream error
+   before checkFrameOrder is reached (WINDOW_UPDATE with increment 0, HEADERS padded beyond its
+   payload).  Observed per event: the result and whether ErrorDetail() is non-nil.
+   reset_first = false: the reset moved into checkFrameOrder (for the refutation). *)
+Inductive fevent :=
+| EvBlock (sid : N) (su torn : bool) (frags : list (N * list hfield))
+| EvRejected (sid : N).
+
+Definition read_event (reset_first : bool) (dec : bool * bool) (detail : bool) (max_list : N) (ev : fevent)
+  : (meta_res * bool) * option ((bool * bool) * bool) :=
+  match ev with
+  | EvRejected sid =>
+      let d := if reset_first then false else detail in
+      ((MErr (EStream sid ErrCodeProtocol), d), Some (dec, d))
+  | EvBlock sid su torn frags =>
+      let '(res, dec') := h2_meta_run2 true dec max_list sid su torn frags in
+      (* the HEADERS frame itself parsed: the detail is cleared either way, then set by a stream error *)
+      let d := match res with MErr (EStream _ _) => true | _ => false end in
+      ((res, d), match dec' with Some x => Some (x, d) | None => None end)
+  end.
+
+Fixpoint read_events (reset_first : bool) (dec : bool * bool) (detail : bool) (max_list : N) (evs : list fevent)
+  : list (meta_res * bool) :=
+  match evs with
+  | [] => []
+  | ev :: r =>
+      let '(o, st) := read_event reset_first dec detail max_list ev in
+      o :: match st with Some (dec', d') => read_events reset_first dec' d' max_list r | None => [] end
+  end.
